@@ -34,6 +34,47 @@ pub fn scen(ps: &ParamSpec, ls: &LandSpec, cfg: &OptCfg) -> J {
         .set("opt", cfg.to_json())
 }
 
+/// "which optimisations ran before on this thread": an optional earlier optimiser run with other
+/// settings, executed on the same (fresh) thread right before the observed run.  Its own history
+/// is not judged; the observed run must behave exactly as if it had not happened.
+pub fn gen_prelude(rng: &mut Rng) -> Option<OptCfg> {
+    if !rng.chance(0.3) {
+        return None;
+    }
+    let steps = *rng.pick(&[1u64, 7, 60, 200]);
+    Some(OptCfg {
+        steps,
+        inner: *rng.pick(&[1u64, 3, 20, 1000]),
+        kt_start: *rng.pick(&[0.0, 0.1, 5.0]),
+        kt_finish: *rng.pick(&[None, Some(1e-3)]),
+        kt_ratio: *rng.pick(&[None, Some(0.1)]),
+        max_step: *rng.pick(&[0.5, 1.0, 5.0, 0.01]),
+        convergence: *rng.pick(&[None, Some(1e9), Some(1e-3)]),
+        seed: rng.below(1 << 32),
+    })
+}
+
+pub fn with_prelude(j: J, p: Option<OptCfg>) -> J {
+    match p {
+        Some(c) => j.set("prelude", c.to_json()),
+        None => j,
+    }
+}
+
+/// run the prelude of a scenario (if any) on the current thread
+pub fn run_prelude(j: &J, ps: &ParamSpec) -> Result<bool, String> {
+    match j.get("prelude") {
+        Some(p) if !p.is_null() => {
+            let cfg = OptCfg::from_json(p)?;
+            let ls = LandSpec::simple("peak", 12345);
+            let small = ParamSpec { n: ps.n.min(6).max(1), ..ps.clone() };
+            let _ = run_e1(&small, &ls, &cfg)?;
+            Ok(true)
+        }
+        _ => Ok(false),
+    }
+}
+
 pub fn unscen(j: &J) -> Result<(ParamSpec, LandSpec, OptCfg), String> {
     Ok((
         ParamSpec::from_json(j.get("params").ok_or("scenario.params")?)?,
@@ -75,13 +116,27 @@ pub fn gen_cfg(rng: &mut Rng, tier: Tier, kt0: bool) -> OptCfg {
         kt_start,
         kt_finish,
         kt_ratio,
-        max_step: *rng.pick(&[0.0, 1e-3, 0.01, 0.01, 0.1, 0.5, 1.0]),
+        max_step: *rng.pick(&[0.0, 1e-3, 0.01, 0.01, 0.1, 0.5, 1.0, 2.5, 5.0, 1e-7]),
         convergence: *rng.pick(&[None, None, None, Some(0.0), Some(1e-6), Some(1e-2)]),
         seed: rng.below(1 << 32),
     }
 }
 
 fn shrink_common(j: &J) -> Vec<J> {
+    let mut out = shrink_common_inner(j);
+    if let Some(p) = j.get("prelude").filter(|p| !p.is_null()) {
+        // every simplification keeps the prelude; one candidate drops it
+        for c in out.iter_mut() {
+            c.put("prelude", p.clone());
+        }
+        if let Ok((ps, ls, cfg)) = unscen(j) {
+            out.insert(0, scen(&ps, &ls, &cfg));
+        }
+    }
+    out
+}
+
+fn shrink_common_inner(j: &J) -> Vec<J> {
     let mut out = vec![];
     let (ps, ls, cfg) = match unscen(j) {
         Ok(x) => x,
@@ -240,7 +295,7 @@ fn std_assumptions() -> Vec<String> {
 
 pub struct C06;
 
-pub fn c06_verdict(run: &E1Run, tr: &Trace, out: &mut RunOut) {
+pub fn c06_verdict(run: &E1Run, tr: &Trace, kt_start_zero: bool, out: &mut RunOut) {
     if run.panic.is_some() {
         return; // termination is C20's subject
     }
@@ -265,6 +320,33 @@ pub fn c06_verdict(run: &E1Run, tr: &Trace, out: &mut RunOut) {
             run.obs.len() as u64,
             "the returned object's parameters are neither the last accepted proposal nor the restored pre-proposal state",
         ));
+    } else if !run.land.is_script() {
+        // "the state of the last ACCEPTED proposal, not that of a discarded trial": explanations in
+        // which a proposal without a score was accepted, a strictly better one was rejected or (at
+        // zero temperature) a strictly worse one was accepted are not explanations at all, whatever
+        // the temperature schedule is.  The returned state must be reachable through the others.
+        let zero_kt = kt_start_zero;
+        let res = tr.feasible(run.x0_score, |e: &EdgeCtx| {
+            if e.null {
+                return Ok(());
+            }
+            match (e.prop_score, e.parent_score) {
+                (None, _) if e.accepted => Err("it would have been accepted although it has no score".to_string()),
+                (Some(p), Some(c)) if p > c && !e.accepted => Err(format!("it would have been rejected although it is strictly better ({:e} > {:e})", p, c)),
+                (Some(p), Some(c)) if p < c && e.accepted && zero_kt => Err(format!("it would have been accepted at zero temperature although it is strictly worse ({:e} < {:e})", p, c)),
+                _ => Ok(()),
+            }
+        });
+        if let Err((k, why)) = res {
+            out.violate(Violation::new(
+                "returned-a-discarded-trial",
+                k as u64,
+                format!("the returned state can only be explained by treating the proposal of score() call {} differently from what the acceptance rule allows: {}", k.min(run.obs.len().saturating_sub(1)), why),
+            ));
+        }
+        if let Some(None) = run.ret_score {
+            out.violate(Violation::new("returned-a-discarded-trial", run.obs.len() as u64, "the returned state has no score (an invalid proposal was handed back)".to_string()));
+        }
     }
     if let (Some(a), Some(b)) = (&run.ret, &run.ret_basis) {
         if a != b {
@@ -292,7 +374,7 @@ impl Check for C06 {
     }
     fn runs(&self, tier: Tier) -> u64 {
         match tier {
-            Tier::Quick => 20_000,
+            Tier::Quick => 60_000,
             Tier::Thorough => 1_500_000,
         }
     }
@@ -301,14 +383,17 @@ impl Check for C06 {
         let ls = gen_land_general(rng, true);
         let mut cfg = gen_cfg(rng, tier, false);
         cap_for_n(&ps, &mut cfg);
-        scen(&ps, &ls, &cfg)
+        let pre = gen_prelude(rng);
+        with_prelude(scen(&ps, &ls, &cfg), pre)
     }
     fn execute(&self, j: &J) -> Result<RunOut, String> {
         let (ps, ls, cfg) = unscen(j)?;
+        let had_prelude = run_prelude(j, &ps)?;
         let run = run_e1(&ps, &ls, &cfg)?;
         let tr = run.trace();
         let mut out = base_out(&run, &tr);
-        c06_verdict(&run, &tr, &mut out);
+        out.count("fault.F-history(an earlier optimisation ran on the same thread)", had_prelude as u64);
+        c06_verdict(&run, &tr, cfg.kt_start == 0.0, &mut out);
         Ok(out)
     }
     fn shrink(&self, j: &J) -> Vec<J> {
@@ -386,7 +471,7 @@ impl Check for C19 {
     }
     fn runs(&self, tier: Tier) -> u64 {
         match tier {
-            Tier::Quick => 20_000,
+            Tier::Quick => 60_000,
             Tier::Thorough => 1_500_000,
         }
     }
@@ -417,13 +502,16 @@ impl Check for C19 {
             cfg.max_step = 0.01;
         }
         cap_for_n(&ps, &mut cfg);
-        scen(&ps, &ls, &cfg)
+        let pre = gen_prelude(rng);
+        with_prelude(scen(&ps, &ls, &cfg), pre)
     }
     fn execute(&self, j: &J) -> Result<RunOut, String> {
         let (ps, ls, cfg) = unscen(j)?;
+        let had_prelude = run_prelude(j, &ps)?;
         let run = run_e1(&ps, &ls, &cfg)?;
         let tr = run.trace();
         let mut out = base_out(&run, &tr);
+        out.count("fault.F-history(an earlier optimisation ran on the same thread)", had_prelude as u64);
         c19_verdict(&run, &tr, &cfg, &mut out);
         Ok(out)
     }
@@ -500,7 +588,8 @@ pub fn gen_c05_e1(rng: &mut Rng, tier: Tier) -> J {
     let loops = *rng.pick(&[1u64, 2, 3, 10, 100]);
     cfg.inner = (cfg.steps / loops).max(1);
     cap_for_n(&ps, &mut cfg);
-    scen(&ps, &ls, &cfg)
+    let pre = gen_prelude(rng);
+    with_prelude(scen(&ps, &ls, &cfg), pre)
 }
 
 pub fn exec_c05_e1(j: &J) -> Result<RunOut, String> {
@@ -508,9 +597,11 @@ pub fn exec_c05_e1(j: &J) -> Result<RunOut, String> {
     if cfg.kt_start != 0.0 {
         return Err("C05 scenario with kt_start != 0".into());
     }
+    let had_prelude = run_prelude(j, &ps)?;
     let run = run_e1(&ps, &ls, &cfg)?;
     let tr = run.trace();
     let mut out = base_out(&run, &tr);
+    out.count("fault.F-history(an earlier optimisation ran on the same thread)", had_prelude as u64);
     out.count("probe.multi_loop_runs", (cfg.loops() >= 2) as u64);
     out.count("probe.kt_finish_set", cfg.kt_finish.is_some() as u64);
     c05_verdict(&run, &tr, &mut out);
